@@ -118,6 +118,40 @@ def run(prog, tier, extra=None):
 
     # ... and no hop is waved through: the per-hop closure cannot say "fine" without the true edge of verify(sig ++ to, hop.sig, hop.from)
     for body in vr:
+        if body.kind != "Closure" and body.ty(0)["s"] == "bool" and not any(x.kind == "Closure" for x in vr):
+            # explicit loop form: `for (index, hop) in self.path.iter().enumerate() { if !verify(..) { return false } .. } true`
+            chv = Chaser(body)
+            ver = gate.bool_switch_edges(body, chv, lambda e: e[0] == "call" and e[1].endswith("crypto::verify") and len(e[2]) == 3
+                                         and has_field(e[2][1], "hop::Hop", "sig") and has_field(e[2][2], "hop::Hop", "from"))
+            heads = [bb for bb, t in body.calls() if call_name(t) == "std::iter::Iterator::next" and t["args"] and has_field(chv.origin(t["args"][0]), "transaction::Transaction", "path")]
+            # only the outermost loops over the path (a nested loop that merely logs the hops is not a validation pass)
+            loops_of = {hb: body.natural_loop(body.innermost_loop_containing([hb])) if body.innermost_loop_containing([hb]) is not None else set() for hb in heads}
+            heads = [hb for hb in heads if not any(o != hb and hb in loops_of[o] and loops_of[o] != loops_of[hb] for o in heads)]
+            from ..paths import Explorer as _ExH
+            heads = [hb for hb in heads if _ExH(body).explore(hb, accept=gate.make_accept(body, return_true=True))]      # a loop on a rejecting path accepts nothing
+            res.instance(R3)
+            if not ver["sites"] or not heads:
+                res.add(Finding(R3, "C08.routing-path|no-hop-verify", "validate_routing_path does not verify hop.sig against hop.from for the hops of self.path", body.loc(0)))
+                continue
+            bad = None
+            for hb in heads:
+                sw = body.term(hb).get("t")
+                hops = 0
+                while sw is not None and body.term(sw)["k"] != "switch" and hops < 6:
+                    sw = body.term(sw).get("t")
+                    hops += 1
+                if sw is None:
+                    continue
+                for (_, tgt) in gate.variant_edges(body, sw, 1):
+                    pth = body.find_path(tgt, {hb} | set(body.return_blocks()), deleted_edges=ver["true"] | ver["false"])
+                    if pth:
+                        bad = pth
+            if bad:
+                res.add(Finding(R3, "C08.routing-path|hop-unverified", "validate_routing_path can finish an iteration over a hop without having branched on the verification of "
+                                "its signature", body.loc(bad[0])))
+            else:
+                res.sample({"rule": R3, "site": [body.loc(x) for x in ver["sites"]], "verdict": "every iteration branches on verify(hop.sig, hop.from)"})
+            continue
         if not (body.kind == "Closure" and body.ty(0)["s"] == "bool"):
             continue
         chv = Chaser(body)
